@@ -62,6 +62,12 @@ Print Assumptions C07_rejects_only_outside_language.
 Theorem C07_errors_nonempty : forall p, o_verdict (compile_iso p) = VConvErr -> 1 <= iso_nerr p.
 Proof. exact iso_errors_nonempty. Qed.
 Print Assumptions C07_errors_nonempty.
+(* positions: NOT a theorem about positions lying inside the file; only that, syntactically, addError calls
+   errpos.AddPosition under the single guard `loc != nil` and GetPos returns the address of a literal (so the
+   guard never fails); whether the position is right is checked by the oracle on every error *)
+Theorem C07_adderror_attaches_position : errors_positioned = true.
+Proof. exact errors_positioned_holds. Qed.
+Print Assumptions C07_adderror_attaches_position.
 
 (* ---- (ii) the call-site table, recomputed over the regenerated list on every run *)
 Theorem C07_sites_agree : sites_same_set = true.
